@@ -338,7 +338,7 @@ impl Model {
         }
 
         let mut outcomes: Vec<Option<H>> = vec![];
-        let mut push = |o: Option<H>, outcomes: &mut Vec<Option<H>>| {
+        let push = |o: Option<H>, outcomes: &mut Vec<Option<H>>| {
             if !outcomes.contains(&o) {
                 outcomes.push(o);
             }
